@@ -377,6 +377,10 @@ async fn run_scenario(sc: &Scenario, sink: &Sink) {
                 sink.emit(json!({"e":"tick","d":st.d}));
                 tokio::time::advance(Duration::from_millis(st.d)).await;
             }
+            "whold" => {
+                sink.emit(json!({"e":"whold","on":st.ok}));
+                ioh.hold_writes(st.ok);
+            }
             "eof" => {
                 sink.emit(json!({"e":"eof"}));
                 ioh.eof();
